@@ -203,6 +203,7 @@ class Inliner(object):
     finally:
       self._cur_locals = outer if outer is not None else set()
     if inlined:
+      _coalesce_copies(node)
       node._inlined_from = sorted((set(inlined) | set(getattr(node, '_inlined_from', ()))) - {'<flag>'})
       node._normalised = True
       _check_bound(node, fi)
@@ -284,11 +285,24 @@ class Inliner(object):
     if len(ys) != len(stmt_ys) or len(ys) > 2 or any(isinstance(y, ast.YieldFrom) for y in ys):
       return None
     has_ret = any(isinstance(x, ast.Return) for x in walk_no_nested(callee.node, include_self=False))
-    if has_ret and not tail:
+    ret_is_break = has_ret and _returns_leave_only_loop(callee.node)
+    if has_ret and not tail and not ret_is_break:
       return None
     res = self._expand(s.iter, callee, fn, stack, inlined, depth, 'generator')
     if res is None:
       return None
+    if has_ret and not tail:
+      # the generator is one loop: returning from it is leaving that loop, after which the consumer's loop is over too
+      class RB(ast.NodeTransformer):
+        def visit_Return(self, n):
+          return ast.copy_location(ast.Break(), n)
+
+        def visit_FunctionDef(self, n):
+          return n
+
+        def visit_Lambda(self, n):
+          return n
+      res = ([RB().visit(st) for st in res[0]], res[1])
     body = s.body
     target = s.target
 
@@ -676,6 +690,120 @@ class Inliner(object):
 
 # ---------------------------------------------------------------------- helpers
 
+_SYNTH = None
+
+
+def _coalesce_copies(defnode):
+  """`x__i7 = f(); ...; x = x__i7` (the result of a spliced helper handed to the caller's variable): when the synthetic name
+  and the caller's name are each assigned exactly once, both assignments are in the same statement list with nothing in
+  between that could skip the copy, and the caller's name is only read after the copy, the two are one variable: the
+  synthetic name is replaced by the caller's and the copy disappears.  Rules then see `x = f()` as in the unspliced code."""
+  import re
+  global _SYNTH
+  if _SYNTH is None:
+    _SYNTH = re.compile(r'__(i|ret)\d+$')
+  params = {a.arg for a in defnode.args.posonlyargs + defnode.args.args + defnode.args.kwonlyargs}
+  if defnode.args.vararg:
+    params.add(defnode.args.vararg.arg)
+  if defnode.args.kwarg:
+    params.add(defnode.args.kwarg.arg)
+  for _ in range(20):
+    order = {}
+    stores, loads = {}, {}
+    scoped = set()
+    for i, x in enumerate(ast.walk(defnode)):
+      order[id(x)] = i
+    # pre-order positions (ast.walk is breadth-first): use a DFS numbering
+    pos = {}
+
+    def number(n, c=[0]):
+      pos[id(n)] = c[0]
+      c[0] += 1
+      for ch in ast.iter_child_nodes(n):
+        number(ch, c)
+    number(defnode, [0])
+    for x in ast.walk(defnode):
+      if isinstance(x, ast.Name):
+        (stores if isinstance(x.ctx, (ast.Store, ast.Del)) else loads).setdefault(x.id, []).append(x)
+      elif isinstance(x, (ast.Global, ast.Nonlocal)):
+        scoped |= set(x.names)
+      elif isinstance(x, ast.ExceptHandler) and x.name:
+        stores.setdefault(x.name, []).append(x)
+      elif isinstance(x, ast.arg) and x.arg not in params:
+        stores.setdefault(x.arg, []).append(x)          # parameters of nested lambdas / defs
+    done = False
+    for blk_owner in ast.walk(defnode):
+      for field in ('body', 'orelse', 'finalbody'):
+        blk = getattr(blk_owner, field, None)
+        if not isinstance(blk, list):
+          continue
+        for si, S in enumerate(blk):
+          if not (isinstance(S, ast.Assign) and len(S.targets) == 1):
+            continue
+          t, v = S.targets[0], S.value
+          if isinstance(t, ast.Name) and isinstance(v, ast.Name):
+            pairs = [(t, v)]
+          elif isinstance(t, (ast.Tuple, ast.List)) and isinstance(v, (ast.Tuple, ast.List)) and len(t.elts) == len(v.elts) and \
+              all(isinstance(e, ast.Name) for e in t.elts + v.elts):
+            pairs = list(zip(t.elts, v.elts))
+          else:
+            continue
+          for (tn, vn) in pairs:
+            u, syn = tn.id, vn.id
+            if u == syn or not _SYNTH.search(syn) or _SYNTH.search(u) or u in params or u in scoped or syn in scoped:
+              continue
+            if len(stores.get(syn, [])) != 1 or len(stores.get(u, [])) != 1 or not isinstance(stores[syn][0], ast.Name):
+              continue
+            dnode = stores[syn][0]
+            # the defining statement D of the synthetic name: an assignment earlier in the same statement list
+            di = None
+            for j in range(si):
+              if isinstance(blk[j], ast.Assign) and any(y is dnode for tt in blk[j].targets for y in ast.walk(tt)):
+                di = j
+            if di is None:
+              continue
+            if any(isinstance(y, (ast.Continue, ast.Break)) for st in blk[di + 1:si] for y in ast.walk(st)):
+              continue
+            if any(pos[id(l)] < pos[id(S)] for l in loads.get(u, [])):
+              continue
+            for l in loads.get(syn, []) + stores[syn]:
+              l.id = u
+            done = True
+            break
+          if done:
+            break
+        if done:
+          break
+      if done:
+        break
+    if not done:
+      break
+    # drop the identity copies left behind
+    class Drop(ast.NodeTransformer):
+      def visit_Assign(self, n):
+        if len(n.targets) == 1:
+          t, v = n.targets[0], n.value
+          if isinstance(t, ast.Name) and isinstance(v, ast.Name) and t.id == v.id:
+            return None
+          if isinstance(t, (ast.Tuple, ast.List)) and isinstance(v, (ast.Tuple, ast.List)) and len(t.elts) == len(v.elts) and \
+             all(isinstance(e, ast.Name) for e in t.elts + v.elts):
+            keep = [(a, b) for a, b in zip(t.elts, v.elts) if a.id != b.id]
+            if not keep:
+              return None
+            if len(keep) < len(t.elts):
+              if len(keep) == 1:
+                n.targets, n.value = [keep[0][0]], keep[0][1]
+              else:
+                t.elts, v.elts = [a for a, _ in keep], [b for _, b in keep]
+        return n
+    Drop().visit(defnode)
+    for x in ast.walk(defnode):
+      for field in ('body', 'orelse', 'finalbody'):
+        b_ = getattr(x, field, None)
+        if isinstance(b_, list) and not b_ and field == 'body' and isinstance(x, (ast.If, ast.For, ast.While, ast.With, ast.Try, ast.ExceptHandler)):
+          b_.append(ast.copy_location(ast.Pass(), x))
+
+
 def _check_bound(defnode, fi):
   """every synthetic name that is read is also bound somewhere in the function: the splice is well formed."""
   import re
@@ -734,6 +862,26 @@ def _subst_flags(block):
     ast.fix_missing_locations(u)
     changed = True
   return changed
+
+
+def _returns_leave_only_loop(defnode):
+  """the generator's body is a single loop (after the docstring) and each of its `return`s (without a value) sits in that
+  loop and in no inner one: `return` is `break` there, and nothing runs after the loop."""
+  body = [st for st in defnode.body if not (isinstance(st, ast.Expr) and isinstance(st.value, ast.Constant))]
+  if len(body) != 1 or not isinstance(body[0], (ast.For, ast.While)) or body[0].orelse:
+    return False
+  loop = body[0]
+  for r in walk_no_nested(defnode, include_self=False):
+    if not isinstance(r, ast.Return):
+      continue
+    if r.value is not None and not (isinstance(r.value, ast.Constant) and r.value.value is None):
+      return False
+    for y in walk_no_nested(loop, include_self=False):
+      if isinstance(y, (ast.For, ast.While)) and any(z is r for z in ast.walk(y)):
+        return False
+      if isinstance(y, ast.Try) and y.finalbody and any(z is r for z in ast.walk(y)):
+        return False
+  return True
 
 
 def _yield_ends_last_loop(defnode):
